@@ -404,3 +404,59 @@ def filter_params_guard(ctx: Ctx):
     ctx.ob("G:filter-with-parameters:build-phase", called, prog.where(pm.ret),
            "the guard runs inside process_model, i.e. when get_lcm_function creates the functions" if called else
            "the guard function is not called by process_model", lhs=show(pm.ret)[:160])
+
+
+@rule("R12.INTERPAXES")
+def interpolation_axes_guard(ctx: Ctx):
+    """The guard of the function representation rejects exactly the axis orders in which the continuous
+    (interpolated) axes are not the trailing axes -- decided on every axis order of up to four names
+    and every set of interpolated names over them, by evaluating the guard's own raise conditions."""
+    import itertools
+
+    from lcmsa.teval import Witness
+
+    prog = ctx.prog
+    q = "lcm.function_representation._fail_if_interpolation_axes_are_not_last"
+    if q not in prog.funcs:
+        ctx.undecided("G:interp-axes:guard", f"{q} not found (anchor vanished)")
+        return
+    fr = prog.frame(q)
+    where = prog.node_where(fr.module, prog.funcs[q].node)
+    gq = "lcm.function_representation.get_function_representation"
+    if gq in prog.funcs:
+        gfr = prog.frame(gq)
+        calls = [(c, t) for c, t, _n in gfr.effects if callee_name(t) == q]
+        ok = bool(calls) and any(not c and ((t[2] and t[2][0] == ("param", gq, "space_info")) or kw(t, fr.params[0]) == ("param", gq, "space_info"))
+                                 for c, t in calls)
+        ctx.ob("G:interp-axes:guard-called", ok if calls else None, prog.node_where(gfr.module, prog.funcs[gq].node),
+               "get_function_representation checks its space_info unconditionally before building the function" if ok else
+               "the axis-order guard is not applied unconditionally to the space_info the representation is built from")
+    pname = fr.params[0] if fr.params else "space_info"
+    names = ("a", "b", "c", "d")
+    n_bad = 0
+    undecided = None
+    for n in range(0, 5):
+        for axes in itertools.permutations(names, n):
+            for k in range(0, len(names) + 2):
+                for interp in itertools.combinations((*names, "z"), k):
+                    common = set(interp) & set(axes)
+                    want = bool(common) and set(axes[len(axes) - len(common):]) != common
+                    w = Witness(axis_names=tuple(axes), interpolation_info={x: None for x in interp},
+                                axis_order=tuple(axes), indexer_infos={}, lookup_info={})
+                    got = raises_on(fr, {("param", q, pname): w}, prog, {})
+                    ctx.count("interp_axes_witnesses")
+                    if got is None:
+                        undecided = (axes, interp)
+                    elif got != want and n_bad < 3:
+                        n_bad += 1
+                        label = f"axes={list(axes)} interpolated={sorted(interp)}"
+                        ctx.ob(f"G:interp-axes:{'rejects' if want else 'accepts'}:{label}", False, where,
+                               (f"{label}: a continuous axis precedes a discrete one, yet the guard ACCEPTS the order -- the "
+                                "representation would index the leading axes as lookups and interpolate the rest") if want else
+                               f"{label}: a valid axis order is rejected", lhs=label, rhs="reject" if want else "accept")
+    if undecided is not None and not n_bad:
+        ctx.undecided("G:interp-axes:witnesses", f"guard expression outside the interpreter's vocabulary (e.g. axes={undecided[0]}, interpolated={undecided[1]})", where)
+    elif not n_bad:
+        ctx.ob("G:interp-axes:witnesses", True, where,
+               "on every axis order of up to 4 names and every interpolated subset the guard raises iff the interpolated axes are not the trailing axes")
+    ctx.floor("interp_axes_witnesses", 2000)
